@@ -624,7 +624,7 @@ func (ps *peerStore) AnnouncePeers(ih bittorrent.InfoHash, seeder bool, numWant 
 		if numWant > 0 {
 			announcerPK := newPeerKey(announcer)
 			for _, pk := range conLeechers {
-				if pk == announcerPK {
+				if serializedPeer(pk.([]byte)) == announcerPK {
 					continue
 				}
 
